@@ -244,3 +244,11 @@ Proof.
   change 1 with (Z.b2z true). rewrite land_2. rewrite (land_compl (w - S t) c d) by (unfold d; lia).
   cbn [andb Z.b2z]. lia.
 Qed.
+
+Lemma count_ones_succ_le a : 0 <= a -> count_ones (a + 1) <= count_ones a + 1.
+Proof.
+  intros Ha. pattern a. apply Z_binary_ind; [cbn; lia| | |exact Ha].
+  - intros b Hb IH _. rewrite count_ones_succ_double, count_ones_double by lia. lia.
+  - intros b Hb IH. replace (2 * b + 1 + 1) with (2 * (b + 1)) by lia.
+    rewrite count_ones_double, count_ones_succ_double by lia. lia.
+Qed.
